@@ -229,7 +229,7 @@ func (e *Engine) evalSpec(x *SExpr, env *SpecEnv) Value {
 			}
 		}
 		if x.Kind == "forall" {
-			return VTerm{T: mkForall(bvs, body, e.patternsFor(bvs, body)), Typ: boolT}
+			return VTerm{T: mkForall(bvs, body, e.patternsMulti(bvs, body)), Typ: boolT}
 		}
 		return VTerm{T: mkExists(bvs, body), Typ: boolT}
 	case "index":
@@ -406,7 +406,7 @@ func (e *Engine) patternsMulti(bvs []*Term, body *Term) [][]*Term {
 		if t.Op == "forall" || t.Op == "exists" {
 			return
 		}
-		if t.Op == "app" {
+		if t.Op == "app" || t.Op == "select" {
 			newCover := false
 			for _, a := range t.Args {
 				for _, b := range bvs {
@@ -593,6 +593,31 @@ func (e *Engine) evalSpecCall(x *SExpr, env *SpecEnv) Value {
 			r = r.(VTuple)[atoi(args[2].Val)]
 		}
 		return r
+	case "nev":
+		v := e.evalSpec(args[0], env)
+		vt, ok := v.(VTerm)
+		if !ok {
+			unsup("spec: nev of %T", v)
+		}
+		return VTerm{T: env.st.getMem("nev:"+vt.T.String(), mkApp("nev0", SInt, vt.T)), Typ: intT}
+	case "evkind", "evname", "evstrat", "evsnap", "evact", "evout":
+		// single-assignment event log of a report object: kind / asset name / strategy / streams of event i
+		v := e.evalSpec(args[0], env)
+		vt, ok := v.(VTerm)
+		if !ok {
+			unsup("spec: %s of %T", name, v)
+		}
+		i := term(e.evalSpec(args[1], env))
+		switch name {
+		case "evkind":
+			return VTerm{T: mkApp("evkind", SInt, vt.T, i), Typ: intT}
+		case "evname":
+			return VTerm{T: mkApp("evname", SStr, vt.T, i), Typ: types.Typ[types.String]}
+		case "evstrat":
+			return VTerm{T: mkApp("evstrat", SRef, vt.T, i), Typ: types.Typ[types.UntypedNil]}
+		default:
+			return VTerm{T: mkApp(name, SInt, vt.T, i), Typ: intT}
+		}
 	case "nexec":
 		v := e.evalSpec(args[0], env)
 		vt, ok := v.(VTerm)
@@ -785,6 +810,11 @@ func (e *Engine) ghostView(st *State, ref *Term) VMap {
 }
 
 func (e *Engine) havocGhostView(st *State, ref *Term) {
+	// event log counter of the object (backtest.Report protocol trace) only grows
+	oldN := st.getMem("nev:"+ref.String(), mkApp("nev0", SInt, ref))
+	nn := e.fresh("nev", SInt)
+	st.assume(mkCmp("<=", oldN, nn))
+	st.mem["nev:"+ref.String()] = nn
 	ks := SStr
 	vs := arraySort(SInt, SRef)
 	elem := types.NewSlice(types.NewPointer(snapshotType))
